@@ -418,8 +418,14 @@ impl SimDisk {
     /// C19 differential: compare the real MemStorage with the sequence model.
     /// `probe` perturbs the sampled ranges deterministically.
     pub fn differential(&self, probe: u64) -> Result<u64, String> {
-        let mem = &self.store.mem;
-        let m = &self.model;
+        differential_of(&self.store.mem, &self.model, probe)
+    }
+}
+
+/// C19 differential between a MemStorage and the sequence model (used for the simulated disks and for the
+/// what-if operation sequences of `exercise`).
+pub fn differential_of(mem: &MemStorage, m: &StableModel, probe: u64) -> Result<u64, String> {
+    {
         let mut compared = 0u64;
         let fi = mem.first_index().map_err(|e| format!("first_index err {e:?}"))?;
         let li = mem.last_index().map_err(|e| format!("last_index err {e:?}"))?;
@@ -527,4 +533,145 @@ impl SimDisk {
         }
         Ok(compared)
     }
+}
+
+/// What-if operation sequences (C19 quantifies over all sequences of MemStorageCore mutations permitted by their
+/// documented preconditions; the simulated application only issues the ones a Ready loop needs). A scratch
+/// MemStorage is rebuilt from the model of a state the simulation reached, then a seeded sequence of legal
+/// mutations is applied to both and compared after every step. Nothing of it touches the simulated node.
+pub fn exercise(model: &StableModel, seed: u64) -> Result<u64, String> {
+    use crate::prng::splitmix64;
+    let mut p = seed;
+    let mem = MemStorage::new();
+    let mut m = StableModel::new(model.cs.clone());
+    if model.snap_index > 0 {
+        let mut s = Snapshot::default();
+        let md = s.mut_metadata();
+        md.index = model.snap_index;
+        md.term = model.snap_term;
+        md.set_conf_state(model.cs.clone());
+        mem.wl().apply_snapshot(s.clone()).map_err(|e| format!("scratch apply_snapshot: {e:?}"))?;
+        m.apply_snapshot(&s);
+    }
+    mem.wl().append(&model.entries).map_err(|e| format!("scratch append: {e:?}"))?;
+    m.append(&model.entries);
+    mem.wl().set_hardstate(model.hs.clone());
+    m.hs = model.hs.clone();
+    mem.wl().set_conf_state(model.cs.clone());
+    m.cs = model.cs.clone();
+    let mut compared = differential_of(&mem, &m, splitmix64(&mut p)).map_err(|e| format!("rebuilt from the model: {e}"))?;
+    let steps = 3 + splitmix64(&mut p) % 8;
+    let mut log: Vec<String> = Vec::new();
+    for _ in 0..steps {
+        let first = m.first_index();
+        let last = m.last_index();
+        let last_term = m.term(last).unwrap_or(m.snap_term).max(m.hs.term);
+        match splitmix64(&mut p) % 6 {
+            0 => {
+                // append, possibly overwriting an uncommitted tail
+                let lo = first.max(m.hs.commit + 1);
+                if lo > last + 1 {
+                    continue;
+                }
+                let at = lo + splitmix64(&mut p) % (last + 2 - lo);
+                let k = 1 + splitmix64(&mut p) % 4;
+                let mut term = if at > first { m.term(at - 1).unwrap_or(last_term) } else { m.snap_term }.max(1);
+                if at <= last {
+                    term = term.max(last_term) + 1; // a conflicting tail comes from a newer leader
+                }
+                let mut ents = Vec::new();
+                for j in 0..k {
+                    if splitmix64(&mut p) % 3 == 0 {
+                        term += 1;
+                    }
+                    let mut e = Entry::default();
+                    e.index = at + j;
+                    e.term = term;
+                    e.data = vec![(splitmix64(&mut p) % 251) as u8; (splitmix64(&mut p) % 40) as usize].into();
+                    ents.push(e);
+                }
+                log.push(format!("append[{}..{}] t{}", at, at + k - 1, term));
+                mem.wl().append(&ents).map_err(|e| format!("{log:?}: append failed {e:?}"))?;
+                m.append(&ents);
+            }
+            1 => {
+                // compact anywhere up to last + 1
+                if last + 1 <= first {
+                    continue;
+                }
+                let idx = first + splitmix64(&mut p) % (last + 2 - first);
+                log.push(format!("compact({idx})"));
+                mem.wl().compact(idx).map_err(|e| format!("{log:?}: compact failed {e:?}"))?;
+                if idx > first {
+                    let boundary = m.entries[(idx - 1 - first) as usize].term;
+                    m.entries.drain(..(idx - first) as usize);
+                    m.first = idx;
+                    m.snap_index = idx - 1;
+                    m.snap_term = boundary;
+                }
+            }
+            2 => {
+                // apply a snapshot anywhere from below first_index to beyond the log
+                let lo = first.saturating_sub(2);
+                let idx = lo + splitmix64(&mut p) % (last + 4 - lo);
+                let term = m.term(idx).unwrap_or(last_term + splitmix64(&mut p) % 2).max(1);
+                let mut s = Snapshot::default();
+                let md = s.mut_metadata();
+                md.index = idx;
+                md.term = term;
+                let mut cs = m.cs.clone();
+                if splitmix64(&mut p) % 2 == 0 {
+                    cs.mut_learners().push(50 + splitmix64(&mut p) % 5);
+                }
+                md.set_conf_state(cs);
+                log.push(format!("apply_snapshot({idx}, t{term})"));
+                let r = mem.wl().apply_snapshot(s.clone());
+                if idx < first {
+                    match r {
+                        Err(Error::Store(StorageError::SnapshotOutOfDate)) => {}
+                        other => return Err(format!("{log:?}: snapshot below first_index {first} gave {other:?}")),
+                    }
+                } else {
+                    r.map_err(|e| format!("{log:?}: apply_snapshot failed {e:?}"))?;
+                    m.apply_snapshot(&s);
+                }
+            }
+            3 => {
+                // commit_to an existing entry
+                if last < first {
+                    continue;
+                }
+                let idx = first + splitmix64(&mut p) % (last + 1 - first);
+                log.push(format!("commit_to({idx})"));
+                mem.wl().commit_to(idx).map_err(|e| format!("{log:?}: commit_to failed {e:?}"))?;
+                m.hs.commit = idx;
+                m.hs.term = m.term(idx).unwrap();
+            }
+            4 => {
+                let mut hs = m.hs.clone();
+                hs.term += splitmix64(&mut p) % 2;
+                hs.vote = splitmix64(&mut p) % 4;
+                let lo = m.snap_index.max(hs.commit.min(last));
+                hs.commit = lo + splitmix64(&mut p) % (last + 1 - lo).max(1);
+                log.push(format!("set_hardstate(t{} v{} c{})", hs.term, hs.vote, hs.commit));
+                mem.wl().set_hardstate(hs.clone());
+                m.hs = hs;
+            }
+            _ => {
+                let mut cs = m.cs.clone();
+                cs.mut_learners().push(60 + splitmix64(&mut p) % 5);
+                log.push("set_conf_state".into());
+                mem.wl().set_conf_state(cs.clone());
+                m.cs = cs;
+            }
+        }
+        let probe = splitmix64(&mut p);
+        let r = std::panic::catch_unwind(std::panic::AssertUnwindSafe(|| differential_of(&mem, &m, probe)));
+        match r {
+            Ok(Ok(k)) => compared += k,
+            Ok(Err(e)) => return Err(format!("after {log:?}: {e}")),
+            Err(_) => return Err(format!("after {log:?}: a query panicked: {}", crate::world::take_last_panic().unwrap_or_default())),
+        }
+    }
+    Ok(compared)
 }
